@@ -98,6 +98,7 @@ func runC11(r *Report, p *Program) {
 	if nl == 0 {
 		r.Unresolve("R2L", "no lock acquisition found in the setup scope (basicauth's htpasswd cache lock expected)")
 	}
+	c11R6(h)
 	// R3: validate and start agree
 	r.Rule("R3", "validate and start agree: in executeDirectives no condition mentioning justValidate guards, skips or cuts short the call of a directive's setup function; justValidate otherwise only selects the throw-away instance and guards the parsing callbacks; casketmain's -validate path and Start both go through ValidateAndExecuteDirectives", 3)
 	if ex := h.fn("R3", "", "executeDirectives"); ex != nil {
